@@ -1,9 +1,13 @@
 import HmfVerif.Model.CacheIO
+import HmfVerif.Model.RegistryIO
+import HmfVerif.Model.HeapIO
 /-! Driver: one request per line on stdin, one canonical answer per line on stdout. -/
 
 def dispatch (line : String) : String :=
   let line := line.trimAscii.toString
   if line.startsWith "ENV " then Hmf.IO.handle line
+  else if line.startsWith "REG " || line.startsWith "PARAMS " then Hmf.Reg.IO.handle line
+  else if line.startsWith "HEAP " then Hmf.Heap.IO.handle line
   else "bad-request"
 
 partial def loop (h : IO.FS.Stream) (out : IO.FS.Stream) : IO Unit := do
